@@ -321,6 +321,40 @@ def perturbations(m: dict[str, Any], schema: Any, arrays: list[Any], rng: random
                     na3 = list(arrays)
                     na3[i] = pa.array([bad], type=pa.string()).cast(f.type)
                     add(f"enum:{lab}", fam, fields, na3)
+        # dataclass parameter: the column is a binary holding the instance as an Arrow IPC stream (one row)
+        dspec = p[1][1] if p[1][0] == "opt" else p[1]
+        if dspec[0] == "dc" and pa.types.is_binary(f.type) and a.null_count == 0:
+            import io
+
+            from pyarrow import ipc
+
+            raw = a[0].as_py()
+            try:
+                inner = ipc.open_stream(io.BytesIO(raw)).read_all().to_batches()[0]
+            except Exception:  # noqa: BLE001
+                inner = None
+            variants: list[tuple[str, bytes]] = [("truncated", raw[: max(8, len(raw) // 2)]), ("garbage", bytes(rng.randrange(256) for _ in range(40))), ("empty", b"")]
+            if inner is not None:
+
+                def ser(batches: list[Any], schema: Any) -> bytes:
+                    sink = io.BytesIO()
+                    with ipc.new_stream(sink, schema) as w_:
+                        for b_ in batches:
+                            w_.write_batch(b_)
+                    return sink.getvalue()
+
+                variants += [
+                    ("zero_rows", ser([inner.slice(0, 0)], inner.schema)),
+                    ("no_batch", ser([], inner.schema)),
+                    ("two_rows", ser([pa.concat_batches([inner, inner])], inner.schema)),
+                ]
+                if inner.num_columns >= 1:
+                    less = inner.drop_columns([inner.schema.names[0]])
+                    variants.append(("missing_field", ser([less], less.schema)))
+            for lab, blob in variants:
+                na3 = list(arrays)
+                na3[i] = pa.array([blob], type=f.type)
+                add(f"dc:{lab}", fam, fields, na3)
         # metadata only (contract ignores it)
         nf2 = list(fields)
         nf2[i] = f.with_metadata({b"verif": b"1"})
